@@ -265,6 +265,7 @@ package types
 //@   props C11
 //@   results eq
 //@   ensures eq ==> ((bi is Record) && len(r.m) == len(bi.(Record).m) && (forall k String :: has(r.m, k) ==> (has(bi.(Record).m, k) && valEq(r.m[k], bi.(Record).m[k]))))
+//@   ensures complete: !eq ==> (!(bi is Record) || len(r.m) != len(bi.(Record).m) || r.hashVal != bi.(Record).hashVal || (exists k String :: has(r.m, k) && !(has(bi.(Record).m, k) && valEq(r.m[k], bi.(Record).m[k]))))
 //@   loop 1
 //@     invariant forall k String :: $done[k] ==> (has(b.m, k) && valEq(r.m[k], b.m[k]))
 //@ func (Set) Equal
